@@ -162,6 +162,9 @@ func init() {
 // ifaceHoldsNil: testify's isNil(object) for an interface value of statically known dynamic type.
 func (x *Exec) ifaceHoldsNil(v Val) *Term {
 	o := x.o
+	if ev, isErr := v.(ErrVal); isErr {
+		return ev.Nil // an error value passed as interface{}: nil iff it is the nil error (typed nil pointers aside)
+	}
 	iv, ok := v.(IfaceVal)
 	if !ok {
 		x.fail("assert.Nil on %T", v)
